@@ -1178,7 +1178,14 @@ def directed_cases(wntr):
         wn.options.report.nodes = ["J1", "J2"]
         wn.options.user.tags = ["ab", "cd"]
 
+    def m_steps(wn):
+        t = wn.options.time
+        t.rule_timestep, t.quality_timestep, t.pattern_timestep, t.report_timestep = 360, 7200, 100, 60
+        t.hydraulic_timestep = 60   # assigned last: what reading Anytown.inp produces (rule 360 > hydraulic 60)
+
     return [
+        ("options-time-steps-in-any-order-relation", "time steps that are not ordered the usual way (rule > hydraulic, quality > hydraulic, report < hydraulic) must come back as they are",
+         with_(m_steps), None),
         ("condition-no-text-form-SimTimeCondition-repeat", "a daily repeating time control (SimTimeCondition(repeat=True)) is written '% 86400.0 SYSTEM TIME IS ...', which from_dict cannot read",
          ctl(lambda wn: C.SimTimeCondition(wn, "=", 3600, repeat=True)), None),
         ("condition-no-text-form-SimTimeCondition-repeat", "the same in a Rule", ctl(lambda wn: C.SimTimeCondition(wn, "=", 3600, repeat=True), rule=True), None),
